@@ -425,14 +425,17 @@ spif_socket_accept(spif_socket_t self)
 
     ASSERT_RVAL(!SPIF_SOCKET_ISNULL(self), (spif_socket_t) NULL);
 
-    addr = SPIF_ALLOC(sockaddr);
-    len = SPIF_SIZEOF_TYPE(sockaddr);
+    /* The peer address may be a UNIX-domain one, which is much larger than a generic sockaddr. */
+    len = SPIF_SIZEOF_TYPE(unixsockaddr);
+    addr = (spif_sockaddr_t) MALLOC(len);
+    memset(addr, 0, len);
     do {
         newfd = accept(self->fd, addr, &len);
     } while ((newfd < 0) && ((errno == EAGAIN) || (errno == EWOULDBLOCK)));
 
     if (newfd < 0) {
         libast_print_error("Unable to accept() connection on %d -- %s\n", self->fd, strerror(errno));
+        SPIF_DEALLOC(addr);
         return (spif_socket_t) NULL;
     }
 
